@@ -1,4 +1,5 @@
 import RbModel.Tag
+import RbModel.TagScript
 import RbModel.Gen.Lang
 import RbModel.Drv.Util
 
@@ -99,6 +100,12 @@ def cmds : List String :=
 
 def cfg : Cfg := tree
 
+/-- the harness hands the requested script to `Script::from_iso15924_tag` first (`none` = rejected) -/
+def isoScript (sc : Option Nat) : Option (Option Nat) :=
+  match sc with
+  | none => some none
+  | some t => (RbModel.TagScript.fromIso15924 RbModel.TagScript.tree t).map some
+
 def handle (ts : List String) : Option String :=
   match ts with
   | ["tags", sc, l] => do
@@ -145,6 +152,9 @@ def handle (ts : List String) : Option String :=
   | ["tagplan", _font, abs, _d, sc, l] => do
     let tbs ← parseTables abs; let sc ← optNat sc; let l ← xs l
     let lang := l.bind languageFromStr
+    match isoScript sc with
+    | none => pure "reject-script"
+    | some sc =>
     pure (wrap (selectAll cfg tbs sc lang) fun sels =>
       let gsub := match sels[0]? with | some (some s) => some s.chosen | _ => none
       let sh := match sc with | some s => categorize s gsub | none => .default
@@ -152,6 +162,9 @@ def handle (ts : List String) : Option String :=
   | ["tagresolve", _font, abs, d, sc, l, tags] => do
     let tbs ← parseTables abs; let d ← d.toNat?; let sc ← optNat sc; let l ← xs l; let tags ← list tags
     let lang := l.bind languageFromStr
+    match isoScript sc with
+    | none => pure "reject-script"
+    | some sc =>
     pure (wrap (planFeatures cfg tbs sc lang d) fun feats =>
       " ".intercalate (tags.map fun t =>
         match feats.find? (fun f => f.tag == t) with
